@@ -10,6 +10,8 @@ LEVEL_TEXT = ('Static effect analysis over the resolved call graph: purity of th
 def run(ctx):
     rule_F1(ctx)
     rule_F2(ctx)
+    from ..effects import rule_F2p
+    rule_F2p(ctx)
     rule_F3(ctx)
     rule_F4(ctx)
     rule_F5(ctx)
